@@ -3,7 +3,7 @@ generic 'run verify and classify' plumbing."""
 import hashlib
 import importlib
 
-from ..common import Acc, exc_site, short, seeded, asc
+from ..common import seeded, asc
 from ..ref import md as RMD
 from ..ref import rsa as R
 
